@@ -232,7 +232,9 @@ def classify_failure(world, calls, ex, why):
     # (2) a store_object that returned normally but whose pid now names a missing object (no event log, or
     #     another mechanism)
     for ti, (op, o) in enumerate(zip(calls, ex.outcomes)):
-        if op["op"] == "store" and op.get("pid") and o[0] == "ok":
+        # (without an event log - OS-scheduled workers - also a store whose tagging was REJECTED counts: its data stage may
+        # have found the object in place before the remover ran, which is the same window)
+        if op["op"] == "store" and op.get("pid") and (o[0] == "ok" or (not ex.log and o != ("err", IN_PROGRESS))):
             cid = a["pidrefs"].get(cfg.H(op["pid"]))
             if cid is not None and cid not in a["objects"]:
                 if op["pid"] in a["cidrefs"].get(cid, []):
